@@ -1056,8 +1056,15 @@ func (d *indexData) newMatchTree(q query.Q, opt matchTreeOpt) (matchTree, error)
 		}, err
 
 	case *query.Type:
-		if s.Type != query.TypeFileName {
-			break
+		switch s.Type {
+		case query.TypeFileMatch:
+			// file matches are what a search returns by default.
+			return d.newMatchTree(s.Child, opt)
+		case query.TypeFileName:
+		default:
+			// type:repo is expanded into a repository set by the caller (see
+			// typeRepoSearcher), a shard cannot evaluate it on its own.
+			return nil, fmt.Errorf("query %s cannot be evaluated by a single shard", s)
 		}
 
 		ct, err := d.newMatchTree(s.Child, opt)
